@@ -95,6 +95,10 @@ pub fn run(o: &Opts) -> serde_json::Value {
         let mut steps = Vec::with_capacity(calls);
         for _ in 0..calls {
             match script {
+                "flips" if rng.gen_bool(0.04) => {
+                    steps.push(Step::Helper { name: if rng.gen_bool(0.5) { "trim_text".into() } else { "enable_all_checks".into() }, on: rng.gen_bool(0.5) });
+                    // (the running `cfg` of the generator is only a base for later flips; the reader's own state is what counts)
+                }
                 "flips" if rng.gen_bool(0.15) => {
                     let mut c = cfg;
                     for _ in 0..rng.gen_range(1..3) {
@@ -184,7 +188,7 @@ pub fn run(o: &Opts) -> serde_json::Value {
         } else {
             src
         };
-        let src_name = match &src { Src::Slice => "slice", Src::Str => "str", Src::Buffered(_) => "buffered", Src::Async(_) => "async", Src::Ns => "ns", Src::NsBuffered(_) => "ns-buffered" };
+        let src_name = match &src { Src::Slice => "slice", Src::Str => "str", Src::Buffered(_) => "buffered", Src::Async(_) => "async", Src::Ns => "ns", Src::NsBuffered(_) => "ns-buffered", Src::File => "file" };
         let r = run_reader(&input, &cfg, &steps, &src);
         // ---- write the trace
         let first = match &src {
@@ -198,6 +202,7 @@ pub fn run(o: &Opts) -> serde_json::Value {
         for (si, so) in r.obs.iter().enumerate() {
             let eff = match (&steps[si], so.did.as_str()) {
                 (Step::SetCfg { .. }, _) => steps[si].clone(),
+                (Step::Helper { .. }, _) => steps[si].clone(),
                 (Step::Stream { .. }, "raw") => steps[si].clone(),
                 (_, "rte") => steps[si].clone(),
                 _ => Step::Read,
@@ -205,6 +210,10 @@ pub fn run(o: &Opts) -> serde_json::Value {
             match &eff {
                 Step::SetCfg { cfg } => {
                     writeln!(f, "{}", json!({"t": "Cfg", "cfg": cfg})).unwrap();
+                }
+                Step::Helper { name, on } => {
+                    // the configuration as read back after the helper call; the specification computes what it must be
+                    writeln!(f, "{}", json!({"t": "Cfg", "cfg": so.c.unwrap_or([9; 7]), "h": name, "on": if *on {1} else {0}})).unwrap();
                 }
                 Step::Read => {
                     let mut v = json!({"t": "Read", "k": so.o.k, "e": so.o.e, "b": so.o.b, "n": so.o.n, "x": so.o.x, "p": so.o.p, "q": so.o.q});
